@@ -229,23 +229,30 @@ package gtab
 // re-based input positions and the ownership part of the stack invariant are
 // still ASSUMED (ensures_assumed).
 //@ func (ctx *Context) fixStackMerge(pos []int)   props: C07 C06
-//@   requires ctx != nil && len(pos) >= 1 && pos[0] >= 0 && sinvDistinct(ctx)
+//@   requires ctx != nil && len(pos) >= 1 && pos[0] >= 0 && sinvDistinct(ctx) && sinvNest(ctx) && sinvScratch(ctx) && sinvOwn(ctx)
 //@   requires forall x int :: 0 <= x && x < len(pos) ==> pos[x] >= pos[0] + x && pos[x] <= pos[len(pos)-1]
 //@   requires pos[len(pos)-1] < len(ctx.seq) + len(pos) - 1
 //@   requires forall k int :: 0 <= k && k < len(ctx.stack) ==> ctx.stack[k] != nil && 0 <= ctx.stack[k].EndPos && ctx.stack[k].EndPos <= len(ctx.seq) + len(pos) - 1 && (ctx.stack[k].EndPos > pos[0] ==> pos[len(pos)-1] < ctx.stack[k].EndPos)
 //@   requires forall k int :: 0 <= k && k < len(ctx.stack) ==> isnil(ctx.stack[k].InputPos) || ref(ctx.stack[k].InputPos) != ref(pos)
 //@   ensures len(ctx.stack) == old(len(ctx.stack))
 //@   ensures forall k int :: 0 <= k && k < len(ctx.stack) ==> ctx.stack[k] != nil && 0 <= ctx.stack[k].EndPos && ctx.stack[k].EndPos <= len(ctx.seq)
-//@   ensures_assumed stackinv(ctx)
+//@   ensures sinvDistinct(ctx) && sinvNest(ctx) && sinvScratch(ctx) && sinvOwn(ctx)
+//@   ensures_assumed sinvPos(ctx)
 //@   opt assume_make=1
 //@   modifies all(nested), allelems(int)
 //@   let DONE = (forall k2 int :: 0 <= k2 && k2 < len(ctx.stack) ==> ctx.stack[k2] != nil) && (forall x int :: 0 <= x && x < len(pos) ==> pos[x] == old(pos[x])) && pos[0] >= 0 && (forall x int :: 0 <= x && x < len(pos) ==> pos[x] >= pos[0] + x && pos[x] <= pos[len(pos)-1]) && pos[len(pos)-1] < len(ctx.seq) + len(pos) - 1
 //@   loop 0
+//@     invariant sinvScratch(ctx) && sinvOwn(ctx) && (forall k7 int :: 0 <= k7 && k7 < len(ctx.stack) ==> isnil(ctx.stack[k7].InputPos) || allocated(ctx.stack[k7].InputPos))
+//@     invariant (forall k4 int :: forall j4 int :: 0 <= j4 && j4 < k4 && k4 < len(ctx.stack) ==> old(ctx.stack[k4].EndPos) <= old(ctx.stack[j4].EndPos))
+//@     invariant (forall k5 int :: 0 <= k5 && k5 < iter ==> ctx.stack[k5].EndPos == old(ctx.stack[k5].EndPos) - ite(old(ctx.stack[k5].EndPos) > pos[0], len(pos) - 1, 0)) && (forall k6 int :: iter <= k6 && k6 < len(ctx.stack) ==> ctx.stack[k6].EndPos == old(ctx.stack[k6].EndPos))
 //@     invariant sinvDistinct(ctx) && DONE
 //@     invariant (forall k3 int :: 0 <= k3 && k3 < len(ctx.stack) ==> isnil(ctx.stack[k3].InputPos) || ref(ctx.stack[k3].InputPos) != ref(pos))
 //@     invariant forall k2 int :: 0 <= k2 && k2 < iter ==> 0 <= ctx.stack[k2].EndPos && ctx.stack[k2].EndPos <= len(ctx.seq)
 //@     invariant forall k2 int :: iter <= k2 && k2 < len(ctx.stack) ==> 0 <= ctx.stack[k2].EndPos && ctx.stack[k2].EndPos <= len(ctx.seq) + len(pos) - 1 && (ctx.stack[k2].EndPos > pos[0] ==> pos[len(pos)-1] < ctx.stack[k2].EndPos)
 //@   loop 1
+//@     invariant sinvScratch(ctx) && sinvOwn(ctx) && (forall k7 int :: 0 <= k7 && k7 < len(ctx.stack) ==> isnil(ctx.stack[k7].InputPos) || allocated(ctx.stack[k7].InputPos)) && (isnil(in) || ref(in) == ref(ctx.stack[outerindex].InputPos) || (allocated(in) && (forall k8 int :: 0 <= k8 && k8 < len(ctx.stack) ==> ref(ctx.stack[k8].InputPos) != ref(in)) && (isnil(ctx.scratch) || ref(ctx.scratch) != ref(in))))
+//@     invariant (forall k4 int :: forall j4 int :: 0 <= j4 && j4 < k4 && k4 < len(ctx.stack) ==> old(ctx.stack[k4].EndPos) <= old(ctx.stack[j4].EndPos))
+//@     invariant (forall k5 int :: 0 <= k5 && k5 < outerindex ==> ctx.stack[k5].EndPos == old(ctx.stack[k5].EndPos) - ite(old(ctx.stack[k5].EndPos) > pos[0], len(pos) - 1, 0)) && (forall k6 int :: outerindex <= k6 && k6 < len(ctx.stack) ==> ctx.stack[k6].EndPos == old(ctx.stack[k6].EndPos))
 //@     invariant (isnil(in) || ref(in) != ref(pos))
 //@     invariant (forall k3 int :: 0 <= k3 && k3 < len(ctx.stack) ==> isnil(ctx.stack[k3].InputPos) || ref(ctx.stack[k3].InputPos) != ref(pos))
 //@     invariant sinvDistinct(ctx) && DONE && 0 <= outerindex && outerindex < len(ctx.stack) && action == ctx.stack[outerindex]
@@ -254,6 +261,9 @@ package gtab
 //@     invariant 0 <= i && i <= len(pos) && 0 <= j && j <= len(in) && delta == ite(i >= 1, i - 1, 0) && action.EndPos > pos[0]
 //@     decreases (len(pos) - i) + (len(in) - j)
 //@   loop 2
+//@     invariant sinvScratch(ctx) && sinvOwn(ctx) && (forall k7 int :: 0 <= k7 && k7 < len(ctx.stack) ==> isnil(ctx.stack[k7].InputPos) || allocated(ctx.stack[k7].InputPos)) && (isnil(in) || ref(in) == ref(ctx.stack[outerindex].InputPos) || (allocated(in) && (forall k8 int :: 0 <= k8 && k8 < len(ctx.stack) ==> ref(ctx.stack[k8].InputPos) != ref(in)) && (isnil(ctx.scratch) || ref(ctx.scratch) != ref(in))))
+//@     invariant (forall k4 int :: forall j4 int :: 0 <= j4 && j4 < k4 && k4 < len(ctx.stack) ==> old(ctx.stack[k4].EndPos) <= old(ctx.stack[j4].EndPos))
+//@     invariant (forall k5 int :: 0 <= k5 && k5 < outerindex ==> ctx.stack[k5].EndPos == old(ctx.stack[k5].EndPos) - ite(old(ctx.stack[k5].EndPos) > pos[0], len(pos) - 1, 0)) && (forall k6 int :: outerindex <= k6 && k6 < len(ctx.stack) ==> ctx.stack[k6].EndPos == old(ctx.stack[k6].EndPos))
 //@     invariant (isnil(in) || ref(in) != ref(pos))
 //@     invariant (forall k3 int :: 0 <= k3 && k3 < len(ctx.stack) ==> isnil(ctx.stack[k3].InputPos) || ref(ctx.stack[k3].InputPos) != ref(pos))
 //@     invariant sinvDistinct(ctx) && DONE && 0 <= outerindex && outerindex < len(ctx.stack) && action == ctx.stack[outerindex]
@@ -262,6 +272,9 @@ package gtab
 //@     invariant 0 <= i && i <= len(pos) && 0 <= j && j <= len(in) && delta == ite(i >= 1, i - 1, 0) && action.EndPos > pos[0]
 //@     decreases len(in) - j
 //@   loop 3
+//@     invariant sinvScratch(ctx) && sinvOwn(ctx) && (forall k7 int :: 0 <= k7 && k7 < len(ctx.stack) ==> isnil(ctx.stack[k7].InputPos) || allocated(ctx.stack[k7].InputPos)) && (isnil(in) || ref(in) == ref(ctx.stack[outerindex].InputPos) || (allocated(in) && (forall k8 int :: 0 <= k8 && k8 < len(ctx.stack) ==> ref(ctx.stack[k8].InputPos) != ref(in)) && (isnil(ctx.scratch) || ref(ctx.scratch) != ref(in))))
+//@     invariant (forall k4 int :: forall j4 int :: 0 <= j4 && j4 < k4 && k4 < len(ctx.stack) ==> old(ctx.stack[k4].EndPos) <= old(ctx.stack[j4].EndPos))
+//@     invariant (forall k5 int :: 0 <= k5 && k5 < outerindex ==> ctx.stack[k5].EndPos == old(ctx.stack[k5].EndPos) - ite(old(ctx.stack[k5].EndPos) > pos[0], len(pos) - 1, 0)) && (forall k6 int :: outerindex <= k6 && k6 < len(ctx.stack) ==> ctx.stack[k6].EndPos == old(ctx.stack[k6].EndPos))
 //@     invariant (isnil(in) || ref(in) != ref(pos))
 //@     invariant (forall k3 int :: 0 <= k3 && k3 < len(ctx.stack) ==> isnil(ctx.stack[k3].InputPos) || ref(ctx.stack[k3].InputPos) != ref(pos))
 //@     invariant sinvDistinct(ctx) && DONE && 0 <= outerindex && outerindex < len(ctx.stack) && action == ctx.stack[outerindex]
